@@ -3,6 +3,7 @@ package props
 import (
 	"encoding/json"
 	"fmt"
+	"strings"
 
 	"xv/adoc"
 	"xv/run"
@@ -171,6 +172,33 @@ func C12(c *run.Check) {
 	r.runGrid(len(jobs), func(i int) *adoc.Doc { return adoc.Instantiate(jobs[i].f, jobs[i].deco) }, names, nil)
 	ld := c12LangDocs()
 	r.runGrid(len(ld), func(i int) *adoc.Doc { return ld[i].Clone().Finish() }, langs, nil)
+	// every letter of the alphabet in both cases on both sides: one document whose
+	// 26 elements carry xml:lang="AA-A" ... "ZZ-Z", one with the lower-case tags,
+	// asked for every letter in lower, upper and mixed case
+	{
+		mk := func(upper bool) *adoc.Doc {
+			d := adoc.NewDoc()
+			root := adoc.E("r")
+			for ch := 'a'; ch <= 'z'; ch++ {
+				l := string(ch)
+				if upper {
+					l = strings.ToUpper(l)
+				}
+				e := adoc.E("e", adoc.T("t"))
+				e.Add(adoc.ANS(adoc.XMLNS, "xml", "lang", l+l+"-"+l))
+				root.Add(e)
+			}
+			d.Root.Add(root)
+			return d.Finish()
+		}
+		letterDocs := []*adoc.Doc{mk(true), mk(false)}
+		var lt []string
+		for ch := 'a'; ch <= 'z'; ch++ {
+			lo, up := string(ch), strings.ToUpper(string(ch))
+			lt = append(lt, "count(//*[lang('"+lo+lo+"')])", "count(//*[lang('"+up+up+"')])", "count(//node()[lang('"+lo+up+"-"+up+"')])", "count(//*[lang('"+up+lo+"-"+lo+"')])")
+		}
+		r.runGrid(len(letterDocs), func(i int) *adoc.Doc { return letterDocs[i].Clone().Finish() }, mustParse(lt), func(n *adoc.Node) bool { return n.Kind == adoc.Root })
+	}
 	// lang on the decorated shape universe too (D4 carries xml:lang)
 	var j4 []job
 	for _, f := range shapes {
@@ -179,7 +207,7 @@ func C12(c *run.Check) {
 	r.runGrid(len(j4), func(i int) *adoc.Doc { return adoc.Instantiate(j4[i].f, j4[i].deco) }, langs[:12], nil)
 	c.Sample(map[string]string{"doc": ld[7].String(), "context": "every node", "expr": "lang('en')"})
 	c.Sample(map[string]string{"doc": adoc.Instantiate(jobs[len(jobs)/2].f, adoc.D3).String(), "context": "every node", "expr": "name(preceding::node())"})
-	c.Rule = fmt.Sprintf("forests <=%d nodes x decorations D0-D5: %d name/local-name/namespace-uri/count expressions (default and explicit argument, empty sets, reverse-axis node-sets, unions of namespace and attribute nodes of one element, wrong-typed arguments) from EVERY node of every kind; %d documents with xml:lang on self/ancestor/overridden/absent (incl. every ordered arrangement of lang / p:lang / xml:lang attributes on one element) over %d tag values x %d lang() expressions (ranges differing in case, with region/script/private-use subtags, empty) from every node; compared with the reference; non-trivial = distinct (expression, context kind, result)", n, len(names), len(ld), len(c12Langs), len(langs))
+	c.Rule = fmt.Sprintf("forests <=%d nodes x decorations D0-D5: %d name/local-name/namespace-uri/count expressions (default and explicit argument, empty sets, reverse-axis node-sets, unions of namespace and attribute nodes of one element, wrong-typed arguments) from EVERY node of every kind; %d documents with xml:lang on self/ancestor/overridden/absent (incl. every ordered arrangement of lang / p:lang / xml:lang attributes on one element) over %d tag values x %d lang() expressions (ranges differing in case, with region/script/private-use subtags, empty) from every node; every letter a-z in either case on either side (2 documents x 104 expressions); compared with the reference; non-trivial = distinct (expression, context kind, result)", n, len(names), len(ld), len(c12Langs), len(langs))
 	c.Set("documents", len(jobs)+len(ld)+len(j4))
 	c.Assume("reference: refxp.NodeNames / refxp.Lang (exact or prefix + '-', ASCII case-insensitive)")
 }
